@@ -1,6 +1,7 @@
 """Choice-level harness (C03, C10, C16): drive `binning.deterministic_choice` with the hash
 position substituted, next to the Lean model's `choice` / `cum` / `ridx` operations and
 the exact-rational interval rule."""
+import itertools
 import json
 import copy
 import math
@@ -136,3 +137,91 @@ def run_half_step(ctx, n):
                 ctx.violation(f"unit {uid!r} (salt {salt!r}) has position {h}/2^32; with weights {ws_text} the boundary is half a grid step "
                               f"{'above' if delta > 0 else 'below'} it, so the interval rule selects g{want}: the evaluator returns {json.dumps(out)}",
                               {"text": text, "env": common.enc_env(env), "h": h, "impl": out, "spec_exact": want})
+
+
+def _exact_index(ws, h):
+    """the interval rule on small non-negative integer weights (everything exact in binary64)"""
+    total = sum(ws)
+    x = Fraction(h, 2 ** 32) * total
+    acc = 0
+    for i, w in enumerate(ws):
+        acc += w
+        if x < acc:
+            return i
+    return len(ws) - 1
+
+
+def run_stateful(ctx, n):
+    """call SEQUENCES on the choice function: the function is documented as a pure function of its arguments' VALUES at the
+    time of the call, so nothing may be remembered between calls — not per list object (a caller that updates one weights
+    list in place between calls), not per address (temporaries of equal length), not per value of another call."""
+    from pyab_experiment.binning import binning
+    rng = ctx.rng
+
+    def call(h, pop, **kw):
+        return common.outcome_of(lambda: binning.deterministic_choice(str(h), pop, **kw))
+
+    def expect(ws, pop, h, cum=False):
+        if cum:
+            ws = [b - a for a, b in zip([0] + list(ws), ws)]
+        if len(ws) != len(pop):
+            return {"e": "ValueError:len"}
+        if sum(ws) <= 0:
+            return {"e": "ValueError:nonpositive"}
+        return {"g": common.enc_val(pop[_exact_index(ws, h)])}
+
+    with SubstitutedPosition():
+        for _ in range(n):
+            k = rng.choice([2, 3, 4, 8, 31, 32, 33, 40, 64])
+            pop = ["p%d" % i for i in range(k)]
+            hs = [rng.randrange(2 ** 32) for _ in range(4)] + [0, 2 ** 32 - 1]
+            mode = rng.choice(["in-place", "in-place-cum", "temporaries", "equal-distinct", "grow-shrink"])
+            ctx.count("stateful:" + mode)
+            steps = []
+            if mode in ("in-place", "in-place-cum", "grow-shrink"):
+                w = [rng.randint(0, 9) for _ in range(k)]
+                w[rng.randrange(k)] += 1
+                cum = mode == "in-place-cum"
+                live = list(itertools.accumulate(w)) if cum else w          # ONE list object for the whole sequence
+                for r in range(5):
+                    for h in hs[:3]:
+                        got = call(h, pop, **({"cum_weights": live} if cum else {"weights": live}))
+                        steps.append((mode, r, h, list(live), got, expect(list(live), pop, h, cum)))
+                    # the caller updates the list in place
+                    if mode == "grow-shrink" and r % 2 == 0:
+                        live.append(5)
+                    elif mode == "grow-shrink":
+                        live.pop()
+                    elif cum:
+                        i = rng.randrange(k)
+                        for j in range(i, k):
+                            live[j] += 3
+                    else:
+                        i, j = rng.randrange(k), rng.randrange(k)
+                        live[i], live[j] = live[j], live[i]
+                        live[rng.randrange(k)] += rng.choice([1, 5])
+                        if rng.random() < 0.3:
+                            live[:] = [0] * (k - 1) + [1]
+            elif mode == "temporaries":
+                a = [rng.randint(0, 9) for _ in range(k)]; a[0] += 1
+                b = [rng.randint(0, 9) for _ in range(k)]; b[-1] += 1
+                for r in range(6):
+                    for h in hs[:3]:
+                        for ws in (a, b):
+                            got = call(h, pop, weights=list(ws))       # a temporary: freed on return, its address reused
+                            steps.append((mode, r, h, ws, got, expect(ws, pop, h)))
+            else:
+                a = [rng.randint(0, 9) for _ in range(k)]; a[0] += 1
+                for r in range(3):
+                    for h in hs:
+                        for ws in (a, tuple(a), list(a), [float(x) for x in a]):
+                            got = call(h, pop, weights=ws)
+                            steps.append((mode, r, h, list(ws), got, expect([int(x) for x in ws], pop, h)))
+            for i, (m, r, h, ws, got, want) in enumerate(steps):
+                ctx.case(("stateful", m, k, i, h, tuple(ws)), True)
+                if got != want:
+                    ctx.violation(
+                        f"call {i} of a sequence ({m}, {k} items): deterministic_choice at position {h}/2^32 with weights whose values at the "
+                        f"time of the call are {ws[:8]}{'…' if len(ws) > 8 else ''} returns {json.dumps(got)[:60]}; those values prescribe {json.dumps(want)[:60]}",
+                        {"mode": m, "sequence": [[s[2], s[3]] for s in steps[:i + 1]][-12:], "h": h, "weights": ws, "impl": got, "spec": want})
+                    break
